@@ -640,6 +640,7 @@ class Interp:
             items = list(base.items)
             items[idx.const] = v
             new = base.replace(items=items, term=T("list", *[x.term for x in items]))
+            self.event("mutate", stmt, st, how="setitem", target=base, index=idx, value=v, targetsrc=ast.unparse(target.value))
             self.rebind(base, new, st)
             return
         if base.kind == "dict" and base.items is not None and idx.has_const:
